@@ -4,33 +4,33 @@
 #  (a) patch applies to a clean checkout and the whole existing suite passes with it,
 #  (b) the demonstration fails with the change, (c) passes without it.
 # On success copies patch.diff / demo.diff / NOTES.md into /verif/seeded/<ID>/ and prints a JSON summary.
-ID=$1; WT=$2; FILTER=$3
-V=/tmp/vs_$ID
-export CARGO_NET_OFFLINE=true CARGO_TARGET_DIR=/tmp/vs_target_$ID
+ID=$1; WT=$2; FILTER=$3; DIR=${4:-$ID}
+V=/tmp/vs_$DIR
+export CARGO_NET_OFFLINE=true CARGO_TARGET_DIR=/tmp/vs_target_$DIR
 git -C /repo worktree remove --force $V 2>/dev/null
 git -C /repo worktree add -q $V HEAD || exit 2
 cd $V || exit 2
 git apply --check $WT/seeded/patch.diff || { echo "RESULT $ID patch does not apply"; exit 1; }
 git apply $WT/seeded/patch.diff
-cargo test --workspace --offline > /tmp/vs_$ID.a.log 2>&1; A=$?
-NFAIL_A=$(grep -c "^test .* FAILED" /tmp/vs_$ID.a.log)
-NPASS_A=$(grep "^test result" /tmp/vs_$ID.a.log | sed 's/.*ok\. \([0-9]*\) passed.*/\1/' | paste -sd+ | bc)
-git apply $WT/seeded/demo.diff 2>/tmp/vs_$ID.demo_apply.log || { echo "demo.diff did not apply cleanly, trying 3way/patch"; patch -p1 < $WT/seeded/demo.diff >> /tmp/vs_$ID.demo_apply.log 2>&1; }
-cargo test --workspace --offline $FILTER > /tmp/vs_$ID.b.log 2>&1; B=$?
-NFAIL_B=$(grep -c "^test .* FAILED" /tmp/vs_$ID.b.log)
+cargo test --workspace --offline > /tmp/vs_$DIR.a.log 2>&1; A=$?
+NFAIL_A=$(grep -c "^test .* FAILED" /tmp/vs_$DIR.a.log)
+NPASS_A=$(grep "^test result" /tmp/vs_$DIR.a.log | sed 's/.*ok\. \([0-9]*\) passed.*/\1/' | paste -sd+ | bc)
+git apply $WT/seeded/demo.diff 2>/tmp/vs_$DIR.demo_apply.log || { echo "demo.diff did not apply cleanly, trying 3way/patch"; patch -p1 < $WT/seeded/demo.diff >> /tmp/vs_$DIR.demo_apply.log 2>&1; }
+cargo test --workspace --offline $FILTER > /tmp/vs_$DIR.b.log 2>&1; B=$?
+NFAIL_B=$(grep -c "^test .* FAILED" /tmp/vs_$DIR.b.log)
 git apply -R $WT/seeded/patch.diff || { echo "RESULT $ID cannot revert patch"; exit 1; }
-cargo test --workspace --offline $FILTER > /tmp/vs_$ID.c.log 2>&1; C=$?
-NFAIL_C=$(grep -c "^test .* FAILED" /tmp/vs_$ID.c.log)
+cargo test --workspace --offline $FILTER > /tmp/vs_$DIR.c.log 2>&1; C=$?
+NFAIL_C=$(grep -c "^test .* FAILED" /tmp/vs_$DIR.c.log)
 echo "RESULT $ID a_suite_with_change: rc=$A passed=$NPASS_A failed=$NFAIL_A | b_demo_with_change: rc=$B failed=$NFAIL_B | c_demo_without_change: rc=$C failed=$NFAIL_C"
-grep "^test .* FAILED" /tmp/vs_$ID.b.log | head -5
+grep "^test .* FAILED" /tmp/vs_$DIR.b.log | head -5
 if [ $A -eq 0 ] && [ $B -ne 0 ] && [ $NFAIL_B -gt 0 ] && [ $C -eq 0 ]; then
-  mkdir -p /verif/seeded/$ID
-  cp $WT/seeded/patch.diff $WT/seeded/demo.diff $WT/seeded/NOTES.md /verif/seeded/$ID/
+  mkdir -p /verif/seeded/$DIR
+  cp $WT/seeded/patch.diff $WT/seeded/demo.diff $WT/seeded/NOTES.md /verif/seeded/$DIR/
   echo "CONFIRMED $ID"
   RC=0
 else
   echo "NOT CONFIRMED $ID"
   RC=1
 fi
-cd /; git -C /repo worktree remove --force $V; rm -rf /tmp/vs_target_$ID
+cd /; git -C /repo worktree remove --force $V; rm -rf /tmp/vs_target_$DIR
 exit $RC
